@@ -438,7 +438,12 @@ def run(ctx):
                 # every non-error path reaches a dent visit
                 # (a visitor answering Quit to an error report may end the walk before the entry is visited)
                 qs = cond_switches(ro, lambda e: is_call(e, W + "::WalkState::is_quit"), ebr)
-                esc = C.all_paths_pass(ro, [0], {c.bb for c in dent_visits}, ro.return_blocks(),
+                # an error about this very entry, returned as run_one's answer, stands in for the entry (walkdir does the
+                # same when it cannot tell the entry's device): the entry is reported, as an error
+                instead = [c for c in vis if c not in dent_visits and c.dest is not None and c.dest["l"] == 0 and not c.dest["p"] and
+                           any(x.k == "agg" and x[2] == "Err" for x in walk(ebr.operand(c.args[1]))) and
+                           any(is_call(x, W + "::is_same_file_system") for x in walk(ebr.operand(c.args[1])))]
+                esc = C.all_paths_pass(ro, [0], {c.bb for c in dent_visits} | {c.bb for c in instead}, ro.return_blocks(),
                                        removed_edges={te for _, te, fe, _ in qs})
                 if esc:
                     r.bad("run_one", "run_one can return without handing the entry to the visitor (an entry is lost)", fn=ro,
